@@ -11,6 +11,7 @@ import (
 	"net/http"
 	"net/textproto"
 	"net/url"
+	"path"
 	"runtime"
 	"strconv"
 	"strings"
@@ -156,11 +157,12 @@ func (ch *Channel) NewStream(ctx context.Context, desc *grpc.StreamDesc, methodN
 }
 
 // methodPath returns the URL path of the named method below the given base
-// path. The method name is appended as it is: cleaning the result (as
-// path.Join does) would make names such as "/a/../svc/Method" or
+// path. The base path is cleaned, like the server cleans the routes it
+// registers, but the method name is appended as it is: cleaning the result
+// (as path.Join of both does) would make names such as "/a/../svc/Method" or
 // "/svc//Method" reach the handler of "/svc/Method".
 func methodPath(basePath, methodName string) string {
-	return strings.TrimSuffix(basePath, "/") + "/" + strings.TrimPrefix(methodName, "/")
+	return strings.TrimSuffix(path.Join("/", basePath), "/") + "/" + strings.TrimPrefix(methodName, "/")
 }
 
 type clientStreamWrapper struct {
